@@ -213,6 +213,11 @@ def run(repo, chk):
                 if not gotos or movs[0] > gotos[-1]:
                     bad = 'Mov(defeat, ...) must precede the exit goto'
                     break
+                evals = [n for n, e in enumerate(seq) if e.kind == 'sub' and e.func in ('self.get_expr_value', 'self.eval_expr', 'self.push_expr')]
+                if evals and movs[0] < evals[-1]:
+                    bad = ('the defeat word is restored BEFORE the return value is evaluated: a defeat function called in the '
+                           'returned expression then runs with defeat already de-virtualised (its `j [defeat]; halt` really halts)')
+                    break
             elif movs:
                 bad = 'defeat written although effective_defeat already equals the target'
                 break
